@@ -3,6 +3,7 @@ package seq
 import (
 	"archive/tar"
 	"bytes"
+	"compress/gzip"
 	"context"
 	"errors"
 	"fmt"
@@ -107,7 +108,21 @@ func (w *World) extraEnabled() []core.WCmd {
 				}
 			}
 			kinds := []string{"delete", "truncate", "flip", "swap", "rollback", "append"}
+			if strings.HasPrefix(k, "tile/data/") || strings.HasPrefix(k, "staging/") {
+				kinds = append(kinds, "recode", "recode", "recode")
+			}
 			add(p.TamperW, core.Cmd{A: "tamper", I: st.idx, S: kinds[r.Intn(len(kinds))], Op: k, N: int64(r.Intn(1 << 20))})
+			// the most recently written data tile (the right edge recovery
+			// reads), re-encoded with one leaf changed: well-formed, wrong content
+			var newest string
+			for _, kk := range keys {
+				if strings.HasPrefix(kk, "tile/data/") && (newest == "" || st.objs[kk].Ver > st.objs[newest].Ver) {
+					newest = kk
+				}
+			}
+			if newest != "" {
+				add((p.TamperW+1)/2, core.Cmd{A: "tamper", I: st.idx, S: "recode", Op: newest, N: int64(r.Intn(1 << 20))})
+			}
 		}
 	}
 	return out
@@ -253,6 +268,12 @@ func (w *World) tamper(st *Store, c core.Cmd) bool {
 		st.tamperPut(c.Op, data, o)
 	case "append":
 		st.tamperPut(c.Op, append(data, byte(c.N), 0, 0, 1), o)
+	case "recode":
+		nd, ok := recodeObject(c.Op, data, c.N)
+		if !ok {
+			return false
+		}
+		st.tamperPut(c.Op, nd, o)
 	case "swap":
 		keys := st.keys()
 		other := keys[int(c.N)%len(keys)]
@@ -682,4 +703,91 @@ func tamperCheckpoint(data []byte, name, kind string, n int) []byte {
 		}
 		return join(text, sg, true)
 	}
+}
+
+// recodeObject returns a well-formed variant of a data tile (or of the data
+// tiles inside a staging bundle) in which one leaf was changed: a bit of the
+// certificate, the timestamp, or two neighbouring leaves exchanged.
+func recodeObject(key string, data []byte, n int64) ([]byte, bool) {
+	if strings.HasPrefix(key, "staging/") {
+		raw, err := gunzip(data)
+		if err != nil {
+			return nil, false
+		}
+		tr := tar.NewReader(bytes.NewReader(raw))
+		var out bytes.Buffer
+		tw := tar.NewWriter(&out)
+		changed := false
+		for {
+			h, err := tr.Next()
+			if err != nil {
+				break
+			}
+			b, err := io.ReadAll(tr)
+			if err != nil {
+				return nil, false
+			}
+			if strings.HasPrefix(h.Name, "tile/data/") {
+				if nb, ok := recodeObject(h.Name, b, n); ok {
+					b, changed = nb, true
+				}
+			}
+			hh := *h
+			hh.Size = int64(len(b))
+			if tw.WriteHeader(&hh) != nil {
+				return nil, false
+			}
+			tw.Write(b)
+		}
+		tw.Close()
+		if !changed {
+			return nil, false
+		}
+		return gzipBytes(out.Bytes()), true
+	}
+	c, ok := ref.ParsePath(key)
+	if !ok || c.Level != -1 {
+		return nil, false
+	}
+	raw, err := gunzip(data)
+	if err != nil {
+		return nil, false
+	}
+	es, err := ref.DecodeDataTile(raw, c.W)
+	if err != nil || len(es) == 0 {
+		return nil, false
+	}
+	j := int(n % int64(len(es)))
+	e := *es[j]
+	switch (n >> 10) % 3 {
+	case 0:
+		if len(e.Cert) == 0 {
+			return nil, false
+		}
+		e.Cert = bytes.Clone(e.Cert)
+		e.Cert[int(n>>4)%len(e.Cert)] ^= 1 << uint(n%8)
+		es[j] = &e
+	case 1:
+		e.Timestamp++
+		es[j] = &e
+	default:
+		if len(es) < 2 {
+			return nil, false
+		}
+		k := (j + 1) % len(es)
+		es[j], es[k] = es[k], es[j]
+	}
+	var b []byte
+	for _, x := range es {
+		b = x.AppendTileLeaf(b)
+	}
+	return gzipBytes(b), true
+}
+
+func gzipBytes(b []byte) []byte {
+	var out bytes.Buffer
+	zw := gzip.NewWriter(&out)
+	zw.Write(b)
+	zw.Close()
+	return out.Bytes()
 }
